@@ -26,8 +26,8 @@
 const char *verif_property = "C03";
 const char *verif_class_names[] = { "A_died_during_handshake", "A_died_connected_idle", "A_died_with_requests_queued", "A_died_mid_request", "A_died_in_disconnect", "A_completed", "A_partial_send", "A_killed_inside_server_callback", "A_closed_asked_for_rerun",
 	"B_died_before_ready", "B_died_during_handshake", "B_died_while_client_waited_forever", "B_died_while_client_waited_finite", "B_killed_between_calls", "B_survived", "B_later_call_checked",
-	"B_shm_cleanup_checked", "shm", "socket", NULL };
-enum { KA_HANDSHAKE, KA_IDLE, KA_QUEUED, KA_MID, KA_DISC, KA_DONE, KA_PARTIAL, KA_INCB, KA_RETRY, KB_NOTREADY, KB_HANDSHAKE, KB_FOREVER, KB_FINITE, KB_KILLED, KB_SURVIVED, KB_LATER, KB_CLEAN, K_SHM, K_SOCK };
+	"B_shm_cleanup_checked", "B_listener_set_up_by_living_parent", "shm", "socket", NULL };
+enum { KA_HANDSHAKE, KA_IDLE, KA_QUEUED, KA_MID, KA_DISC, KA_DONE, KA_PARTIAL, KA_INCB, KA_RETRY, KB_NOTREADY, KB_HANDSHAKE, KB_FOREVER, KB_FINITE, KB_KILLED, KB_SURVIVED, KB_LATER, KB_CLEAN, KB_SPLIT, K_SHM, K_SOCK };
 const char *verif_rule =
 	"case = part (A client dies / B server dies), transport, script of the victim (A: answered requests, requests left queued, events, proper disconnect or not; B: which requests are answered), "
 	"crash point K = index of the libc call before which the victim stops (enumerated 0..N for fixed scripts, random otherwise) with optional partial send, server step choices (A) or client call "
@@ -254,15 +254,17 @@ static int32_t b_msg(qb_ipcs_connection_t *c, void *data, size_t)
 static int32_t b_closed(qb_ipcs_connection_t *) { return 0; }
 static void b_destroyed(qb_ipcs_connection_t *) {}
 
-static void victim_server(const char *name, enum qb_ipc_type type, long K, int partial, int rfd)
+static struct qb_ipcs_service_handlers B_SH = { b_accept, b_created, b_msg, b_closed, b_destroyed };
+static void victim_server(const char *name, enum qb_ipc_type type, long K, int partial, int rfd, bool listener_inherited)
 {
 	vcrash_arm(K, partial, rfd);
-	DISP.clear(); JOBS.clear();
-	struct qb_ipcs_service_handlers sh = { b_accept, b_created, b_msg, b_closed, b_destroyed };
-	qb_ipcs_service_t *s = qb_ipcs_create(name, 0, type, &sh);
-	if (!s) _exit(4);
-	qb_ipcs_poll_handlers_set(s, &POLLH);
-	if (qb_ipcs_run(s) != 0) _exit(5);
+	if (!listener_inherited) {
+		DISP.clear(); JOBS.clear();
+		qb_ipcs_service_t *s = qb_ipcs_create(name, 0, type, &B_SH);
+		if (!s) _exit(4);
+		qb_ipcs_poll_handlers_set(s, &POLLH);
+		if (qb_ipcs_run(s) != 0) _exit(5);
+	}
 	if (__real_write(rfd, "R\n", 2) < 0) {}
 	for (;;) {
 		if (!server_step(0)) {
@@ -275,9 +277,21 @@ static void victim_server(const char *name, enum qb_ipc_type type, long K, int p
 
 static bool is_disconnect_error(ssize_t rc) { return rc < 0 && qb_ipc_us_sock_error_is_disconnected((int)rc); }
 
-static void part_b(struct verif_report *r, enum qb_ipc_type type, long K, int partial)
+static void part_b(struct verif_report *r, enum qb_ipc_type type, long K, int partial, bool split = false)
 {
 	std::string name = ipc_name();
+	qb_ipcs_service_t *sup = NULL;
+	if (split) {
+		/* supervisor/worker layout: this process sets the service up and keeps living, a forked worker serves (and dies) */
+		DISP.clear(); JOBS.clear();
+		sup = qb_ipcs_create(name.c_str(), 0, type, &B_SH);
+		if (!sup) { r->inconclusive = 1; return; }
+		qb_ipcs_poll_handlers_set(sup, &POLLH);
+		if (qb_ipcs_run(sup) != 0) { r->inconclusive = 1; return; }
+		K = 1000000; partial = -1;
+		VCLASS(r, KB_SPLIT);
+		VLOG(r, "the service is set up (listening) by this process; a forked worker serves\n");
+	}
 	int pfd[2];
 	if (pipe(pfd)) { r->inconclusive = 1; return; }
 	struct sigaction sa; memset(&sa, 0, sizeof sa); sa.sa_handler = on_chld; sa.sa_flags = SA_RESTART; sigaction(SIGCHLD, &sa, NULL);
@@ -288,8 +302,8 @@ static void part_b(struct verif_report *r, enum qb_ipc_type type, long K, int pa
 	if (pid < 0) { r->inconclusive = 1; return; }
 	if (pid == 0) {
 		sigprocmask(SIG_SETMASK, &old, NULL); signal(SIGCHLD, SIG_DFL);
-		for (int fd = 3; fd < 256; fd++) if (fd != pfd[1]) __real_close(fd);
-		victim_server(name.c_str(), type, K, partial, pfd[1]);
+		for (int fd = 3; fd < 256; fd++) { bool keep = fd == pfd[1]; if (split) for (auto &e : DISP) if (e.fd == fd) keep = true; if (!keep) __real_close(fd); }
+		victim_server(name.c_str(), type, K, partial, pfd[1], split);
 		_exit(0);
 	}
 	server_pid = pid;
@@ -325,6 +339,7 @@ static void part_b(struct verif_report *r, enum qb_ipc_type type, long K, int pa
 	bool saw_disconnect = false, checked_forever = false;
 	int nops = 3 + vr_u8(&V) % 6;
 	int kill_at = (vr_u8(&V) % 3 == 0) ? (int)(vr_u8(&V) % nops) : -1;
+	if (split && kill_at < 0) kill_at = nops / 2;
 	for (int i = 0; i < nops && !r->fail; i++) {
 		if (i == kill_at && !server_dead) {
 			kill(pid, SIGKILL);
@@ -395,6 +410,7 @@ static void part_b(struct verif_report *r, enum qb_ipc_type type, long K, int pa
 	VCLASS(r, KB_CLEAN);
 	/* the statement speaks of files: the (then empty) per-connection directory which the shm client leaves is not counted */
 	std::string first; int left = count_shm_files(&first);
+	if (sup) { qb_ipcs_destroy(sup); server_drain(50); }
 	if (left != 0) VFAIL(r, "shm-left-behind", "%d file(s) are left below /dev/shm after the server died and the client disconnected (e.g. %s)", left, first.c_str());
 }
 
@@ -414,7 +430,7 @@ static const uint8_t BSCRIPT[3][32] = {
 extern "C" size_t verif_enum_count(const char *tier)
 {
 	(void)tier;	/* both tiers enumerate every crash point: part A 2 transports x 4 scripts x K; part B 2 transports x 3 scripts x K */
-	return 2 * 4 * ENUM_KA + 2 * 3 * ENUM_KB + 2 * 3 * 2 + 2 * HS_REQ_PREFIXES + 2 * HS_RSP_PREFIXES;
+	return 2 * 4 * ENUM_KA + 2 * 3 * ENUM_KB + 2 * 3 * 2 + 2 * HS_REQ_PREFIXES + 2 * HS_RSP_PREFIXES + 2 * 3;
 }
 extern "C" size_t verif_enum_case(size_t idx, uint8_t *buf, size_t cap)
 {
@@ -427,6 +443,13 @@ extern "C" size_t verif_enum_case(size_t idx, uint8_t *buf, size_t cap)
 		uint16_t k = 0xfffe;	/* "at the first send" */
 		if (idx < 2 * HS_REQ_PREFIXES) { buf[0] = 0xA0; buf[1] = idx / HS_REQ_PREFIXES; buf[2] = 1; memcpy(buf + 3, &k, 2); buf[5] = 0; buf[6] = 1 + idx % HS_REQ_PREFIXES; return 8; }
 		idx -= 2 * HS_REQ_PREFIXES;
+		if (idx >= 2 * HS_RSP_PREFIXES) {	/* supervisor/worker layout: the listener was set up by a process that stays alive; the worker is killed between two calls */
+			idx -= 2 * HS_RSP_PREFIXES;
+			uint16_t kk = 0xffff;
+			buf[0] = 0xB0; buf[1] = idx / 3; buf[2] = 0x80 | (idx % 3); memcpy(buf + 3, &kk, 2);
+			memcpy(buf + 5, BSCRIPT[idx % 3], sizeof BSCRIPT[0]);
+			return 5 + sizeof BSCRIPT[0];
+		}
 		buf[0] = 0xB0; buf[1] = idx / HS_RSP_PREFIXES; buf[2] = 0; memcpy(buf + 3, &k, 2);
 		memcpy(buf + 5, BSCRIPT[0], sizeof BSCRIPT[0]);
 		uint16_t n = RSP_PREFIX[idx % HS_RSP_PREFIXES]; memcpy(buf + 5 + sizeof BSCRIPT[0], &n, 2);
@@ -452,7 +475,7 @@ extern "C" int verif_case(const uint8_t *data, size_t size, struct verif_report 
 	unsigned first = vr_u8(&V);
 	if (first == 0xA0 || first == 0xB0) {		/* enumerated */
 		enum qb_ipc_type type = vr_u8(&V) ? QB_IPC_SHM : QB_IPC_SOCKET;
-		unsigned si = vr_u8(&V) % 4; long K = vr_u16(&V); int kin = first == 0xA0 ? (int)(vr_u8(&V) % 4) : 0;
+		unsigned siraw = vr_u8(&V), si = siraw % 4; long K = vr_u16(&V); bool split = first == 0xB0 && (siraw & 0x80); int kin = first == 0xA0 ? (int)(vr_u8(&V) % 4) : 0;
 		int partial = -1;
 		if (K == 0xfffe) {	/* stop after a prefix of the first message sent */
 			K = -2;
@@ -462,7 +485,7 @@ extern "C" int verif_case(const uint8_t *data, size_t size, struct verif_report 
 		VCLASS(r, type == QB_IPC_SHM ? K_SHM : K_SOCK);
 		vop(r, first, type, si); vop(r, K, 0, 0);
 		if (first == 0xA0) { VLOG(r, "part A (client dies), %s, fixed script %u, crash point %ld\n", type == QB_IPC_SHM ? "shm" : "socket", si, K); a_closed_retries = si == 2 ? 2 : si == 1 ? 1 : 0; part_a(r, type, FIXED[si], K, partial, si == 3, kin); }
-		else { VLOG(r, "part B (server dies), %s, crash point %ld\n", type == QB_IPC_SHM ? "shm" : "socket", K); part_b(r, type, K, partial); }
+		else { VLOG(r, "part B (server dies), %s, crash point %ld\n", type == QB_IPC_SHM ? "shm" : "socket", K); part_b(r, type, K, partial, split); }
 		return 0;
 	}
 	bool partA = first % 2 == 0;
@@ -485,7 +508,9 @@ extern "C" int verif_case(const uint8_t *data, size_t size, struct verif_report 
 	} else {
 		vop(r, 0xB, type, K); vop(r, partial, 0, 0);
 		VLOG(r, "part B (server dies), %s, crash point %ld%s\n", type == QB_IPC_SHM ? "shm" : "socket", K, partial >= 0 ? " with a partial send" : "");
-		part_b(r, type, K, partial);
+		bool split = vr_u8(&V) % 5 == 0;
+		vop(r, split, 0, 0);
+		part_b(r, type, K, partial, split);
 	}
 	return 0;
 }
